@@ -499,7 +499,7 @@ func c20Draw(r *fw.Rand, tokBase int) *c20Model {
 
 func c20N(tier string) int {
 	if tier == "thorough" {
-		return 30000
+		return 150000
 	}
 	return 2000
 }
